@@ -35,6 +35,7 @@ def flat(hs):
 
 # real sockets / real time: a verdict must persist when the case is re-run on its own (2 of 3)
 RETRY_PREFIX = "*"
+NEEDS_ENDPOINT_BIN = True
 
 
 def gen_cases(rng, ctx):
@@ -93,6 +94,12 @@ def gen_cases(rng, ctx):
                     hs.append(("x-ping", b"1"))
                 toks = [[ch, http2, 1, 1, 1, rng.below(2), 0], [6], list(path.encode()), flat(hs), []]
                 wrap(18, n2, toks, "service:channel%d-h%d-%s" % (ch, 2 if http2 else 1, path), names2)
+    # the real binary's own log (stdout of endpoint/src/main.rs at trace level): accepted and rejected credentials
+    for i in range(8 if thorough else 3):
+        tag = "%06x" % rng.below(1 << 24)
+        u, pw, wrong = "canaryuser", "BINPW-%s-canary" % tag, "BINWRONG-%s-canary" % tag
+        l = line("bin_run", [[2, 0, 2], list(u.encode()), list(pw.encode()), list(wrong.encode())])
+        cases.append(Case(l, None, kind="process:trace-log", nontrivial=True, meta={"bin": True, "names": ["configured password", "rejected password", "their Basic tokens"]}))
     # what TlsDemux::select returns is logged with {:?}: an SNI carrying a credentials label
     for i in range(20 if thorough else 6):
         label = ("SNILABEL-%06x-canary" % rng.below(1 << 24)).encode()
@@ -118,6 +125,18 @@ def judge(case, impl, model, spec, ctx):
     if impl == "999":
         return [("violation", "panic under the log capture (%s)" % case.kind)]
     t = impl.split()
+    if case.meta and case.meta.get("bin"):
+        if impl == "996":
+            ctx.setdefault("skipped_env", []).append(case.kind)
+            return []
+        s1, s2, s3, s4, code, lines, hits = untok(t[0])
+        if s1 != 200 or s2 != 407:
+            return [("disagree", "the endpoint binary answered %d to the configured credentials and %d to a wrong password" % (s1, s2))]
+        if lines < 20:
+            return [("disagree", "the endpoint binary wrote only %d log lines at trace level" % lines)]
+        if hits:
+            return [("violation", "the endpoint binary's own log at trace level (%d lines) contains a configured or rejected password, or a Basic token carrying one, in %d line(s)" % (lines, hits))]
+        return []
     if case.kind == "scrub-functions":
         out = []
         hs = untok(t[0])
